@@ -58,7 +58,11 @@ RULE = (
     "not, chained on injected nodes, with exact repetitions (node vs channel form), near-identical twins (1 / '1', "
     "True / 'True', None / 'None', [1] / '[1]', 1 / True / 1.0), in-process pickle round trips of the parents "
     "between expressions, and restart histories (save, continue in a child interpreter with another PYTHONHASHSEED, "
-    "load, the same expressions again); edit histories (parents are two workflows and a macro that is stand-alone or "
+    "load, the same expressions again); operand holders are function nodes or single-output COMPOSITES (macros), used "
+    "in channel and in node form; creator cases (the expressions are written by a generated macro's graph creator over "
+    "its arguments, mostly with both operands the same argument, the macro is instantiated stand-alone / in a workflow "
+    "/ inside another macro and run, its output and every injected node are compared with Python); a unary sweep "
+    "(every unary operator on every pool value incl. Decimal and Counter); edit histories (parents are two workflows and a macro that is stand-alone or "
     "a child; between writing and re-writing every expression an ancestor is relabelled, the macro is adopted by / "
     "moved between / taken out of workflows or relabelled, a source node that is owner or operand is relabelled in "
     "the supported way, a new source takes a given-up name, optionally after a pickle round trip; twice); rewrite "
@@ -696,6 +700,8 @@ def gen_creator(rng):
             g.push(_flip_forms(rng, rng.choice([o for o in g.ops])))
         else:
             g.push(*g.fresh())
+    if not g.ops:
+        g.push({"op": "bool", "owner": ["src", 0], "owner_form": "node", "operands": []})
     return {"kind": "history", "creator": {"host": rng.choice(["alone", "wf", "macro"])}, "ops": g.ops,
             "sources": [{k: v for k, v in x.items() if k not in ("now", "cur", "made")} for x in g.sources]}
 
@@ -1009,6 +1015,7 @@ def corpus():
 
 _VARIANT = None
 _CREATED: list = []
+_WIRED_AT_REMOVAL: dict = {}
 _CREATOR_COUNT = 0
 
 
@@ -1053,6 +1060,21 @@ def _install_hook():
 
     __init__._c18_hook = True
     Node.__init__ = __init__
+
+    from pyiron_workflow.nodes.composite import Composite
+
+    orig_rm = Composite.remove_child
+
+    @functools.wraps(orig_rm)
+    def remove_child(self, child, *a, **k):
+        try:  # what the child was wired to when it was taken out (a constructor that raised removes its node)
+            c = self.children[child] if isinstance(child, str) else child
+            _WIRED_AT_REMOVAL[id(c)] = [x.owner for inp in c.inputs for x in inp.connections]
+        except Exception:  # noqa: BLE001
+            pass
+        return orig_rm(self, child, *a, **k)
+
+    Composite.remove_child = remove_child
 
 
 def _apply(x, d, args):
@@ -1712,6 +1734,7 @@ class _Run:
         raised = None
         node = None
         _CREATED.clear()
+        _WIRED_AT_REMOVAL.clear()
         try:
             node = _apply(x, d, args)
         except Exception as e:  # noqa: BLE001
@@ -1776,6 +1799,7 @@ class _Run:
                 if node is None:
                     # the new GetItem node raised while auto-running: it was taken out of the parent and cut off
                     snode = next((m for m in made if type(m).__name__ == "Slice"), None) or \
+                        next((m for m in _WIRED_AT_REMOVAL.get(id(g), []) if type(m).__name__ == "Slice"), None) or \
                         _slice_node_for(self.wfs.get(ctx), args)
                     r["line"] += " !"
                     r["lost"] = True
